@@ -75,6 +75,15 @@ Definition sv_packet (c : cfg) (own : pv) (sv : sview) (p : spkt) : pstep :=
    of the window never arrives.  Returns the view, the connect / connect_error notifications the
    window calls for, and whether a DISCONNECT ended a namespace. *)
 Definition is_disc (p : spkt) : bool := match p with SDisconnect _ => true | _ => false end.
+(* the connect / connect_error notifications one window packet calls for (None = a handler raises) *)
+Definition win_here (p : spkt) (st : pstep) : option (list (N * list pv)) :=
+  if ps_dom st
+  then (if is_disc p then match ps_calls st with Some _ => Some [] | None => None end else ps_calls st)
+  else Some [].
+(* the packet ended a namespace / ended the last one: the client closes the transport *)
+Definition win_ended (p : spkt) (st : pstep) : bool := is_disc p && ps_dom st.
+Definition win_stop (p : spkt) (st : pstep) : bool :=
+  win_ended p st && match sv_acc (ps_view st) with [] => true | _ => false end.
 Fixpoint sv_window (c : cfg) (s : cli) (sv : sview) (w : list (pv * jtable))
   : sview * option (list (N * list pv)) * bool :=
   match w with
@@ -82,15 +91,10 @@ Fixpoint sv_window (c : cfg) (s : cli) (sv : sview) (w : list (pv * jtable))
   | (payload, tbl) :: r =>
       let p := classify s payload tbl in
       let st := sv_packet c (sid s) sv p in
-      let here := if ps_dom st
-                  then (if is_disc p then match ps_calls st with Some _ => Some [] | None => None end else ps_calls st)
-                  else Some [] in
-      let ended := is_disc p && ps_dom st in
-      if ended && match sv_acc (ps_view st) with [] => true | _ => false end then (ps_view st, here, true)
+      if win_stop p st then (ps_view st, win_here p st, true)
       else
-      let s1 := fst (fst (deliver c payload tbl s)) in
-      let '(sv', calls, disc) := sv_window c s1 (ps_view st) r in
-      (sv', opt_app here calls, disc || ended)
+      let '(sv', calls, disc) := sv_window c (fst (fst (deliver c payload tbl s))) (ps_view st) r in
+      (sv', opt_app (win_here p st) calls, disc || win_ended p st)
   end.
 
 (* ---- clauses ---- *)
